@@ -139,6 +139,15 @@ func runC09(a *A) {
 					}
 				}
 			}
+			if _, isPhi := d.(*ssa.Phi); isPhi {
+				// the batch carried in a variable: every value it can hold, "nothing to deliver" (nil) aside
+				for _, l := range phiLeaves(d) {
+					if !isNilConst(l) {
+						resolved = append(resolved, l)
+					}
+				}
+				continue
+			}
 			resolved = append(resolved, d)
 		}
 		delivered = resolved
